@@ -35,6 +35,9 @@ def instances(tier):
         for N in ((2,) if tier == 'quick' else (2, 3)):
             out.append(dict(name='matrixarray[r%d,N%d]' % (rank, N), fn='matrixarray', args=dict(rank=rank, N=N), query_timeout_ms=120000))
     out.append(dict(name='ctor-errors', fn='ctor_errors', args={}))
+    for N in ((2, 3, 5, 50) if tier == 'quick' else (2, 3, 5, 6, 9, 25, 50, 100, 1000, 1024, 4096)):
+        for ctor in ('dr', 'dk'):
+            out.append(dict(name='grid-fp[N%d,%s]' % (N, ctor), fn='grid_fp', args=dict(N=N, ctor=ctor), query_timeout_ms=300000 if tier == 'quick' else 1200000, timeout=2000 if tier == 'quick' else 6000))
     return out
 
 
@@ -165,3 +168,57 @@ def matrixarray(E, rank, N):
 def ctor_errors(E):
     E.expect_raises('neither-dr-nor-dk', (ValueError,), lambda: pyPRISM.Domain(length=4))
     E.expect_raises('both-dr-and-dk', (ValueError,), lambda: pyPRISM.Domain(length=4, dr=0.1, dk=0.1))
+
+
+# ----------------------------------------------------------------------------- floating-point grid (symx-FP)
+
+def grid_fp(E, N, ctor):
+    """machine arithmetic: len(r) == len(k) == N for EVERY double spacing in [1e-3, 1] (a float np.arange can gain a point),
+    r_i and k_j are the correctly rounded (i+1)*spacing. The real Domain code is executed on a symbolic Float64."""
+    import z3, time, fractions
+    from vsym import fp
+    lo, hi = 1e-3, 1.0
+    if not E.sym:
+        v = E.real('v0', default=0.1)
+        D = pyPRISM.Domain(length=N, dr=v) if ctor == 'dr' else pyPRISM.Domain(length=N, dk=v)
+        E.claim_true('len(r)==length', len(D.r) == N)
+        E.claim_true('len(k)==length', len(D.k) == N)
+        if len(D.r) == N and len(D.k) == N:
+            E.claim_true('r[i]==(i+1)*dr (2 ulp)', all(abs(D.r[i] - (i + 1) * D.dr) <= 2 * _np.spacing((i + 1) * D.dr) for i in range(N)))
+            E.claim_true('k[j]==(j+1)*dk (2 ulp)', all(abs(D.k[i] - (i + 1) * D.dk) <= 2 * _np.spacing((i + 1) * D.dk) for i in range(N)))
+        return
+    import pyPRISM.core.Domain as DM
+    v = z3.FP('v0', fp.F64)
+    pre = [z3.fpGEQ(v, fp.fv(lo)), z3.fpLEQ(v, fp.fv(hi))]
+    npf = fp.NPF(N)
+    saved = DM.np
+    DM.np = npf
+    try:
+        D = pyPRISM.Domain(length=N, dr=fp.SF(v)) if ctor == 'dr' else pyPRISM.Domain(length=N, dk=fp.SF(v))
+    finally:
+        DM.np = saved
+    E.claim_true('grids-built', len(D.r) == N and len(D.k) == N)
+    E.notes.append('float aranges met: %d' % len(npf.obligations))
+    for n_ob, ob in enumerate(npf.obligations):
+        key = 'float-arange-length==%d[%d]' % (N, n_ob)
+        sv = z3.Solver(); sv.set('timeout', int(E.timeout_ms))
+        sv.add(*pre); sv.add(z3.Not(z3.fpEQ(ob.length_term, fp.fv(N))))
+        t0 = time.time(); r = str(sv.check()); dt = time.time() - t0
+        E.stats['queries'] += 1; E.stats['solver_s'] += dt; E.stats['max_query_s'] = max(E.stats['max_query_s'], dt)
+        rec = dict(key=key, verdict='holds' if r == 'unsat' else 'unknown', s=round(dt, 2), path='', canary=False)
+        if r == 'sat':
+            import struct
+            bv = sv.model().eval(z3.fpToIEEEBV(v), model_completion=True).as_long()
+            fval = struct.unpack('>d', bv.to_bytes(8, 'big'))[0]       # the model's double, bit for bit
+            p = E._replay(key, {'v0': str(fractions.Fraction(fval))})
+            if p:
+                rec['verdict'] = 'violation'; rec['replay'] = p; rec['key'] = E.last_replay_key
+            else:
+                rec['verdict'] = 'sat-not-reproduced'
+        E.results.append(rec)
+    if not npf.obligations:
+        # integer arange scaled by the spacing: the length is N by construction; every point is one correctly rounded product
+        ok = all(z3.eq(D.r[i].t, z3.fpMul(fp.RNE, fp.fv(i + 1), D.dr.t)) or z3.eq(D.r[i].t, z3.fpMul(fp.RNE, D.dr.t, fp.fv(i + 1))) for i in range(N))
+        ok2 = all(z3.eq(D.k[i].t, z3.fpMul(fp.RNE, fp.fv(i + 1), D.dk.t)) or z3.eq(D.k[i].t, z3.fpMul(fp.RNE, D.dk.t, fp.fv(i + 1))) for i in range(N))
+        E.claim_true('r[i]-is-the-rounded-product-(i+1)*dr', ok)
+        E.claim_true('k[j]-is-the-rounded-product-(j+1)*dk', ok2)
